@@ -7,7 +7,7 @@ V = os.path.dirname(os.path.dirname(os.path.abspath(__file__)))
 LIBS = "-lpcre -lX11 -lSM -lICE -lfreetype -ldl -lm -lpthread"
 
 def sh(cmd, **kw):
-    return subprocess.run(cmd, shell=True, capture_output=True, text=True, **kw)
+    return subprocess.run(cmd, shell=True, capture_output=True, text=True, errors="replace", **kw)
 
 def build_demo(demo, root, exe, asan=False):
     lib = "%s/src/.libs/libast.a" % root
@@ -28,6 +28,9 @@ def build_demo(demo, root, exe, asan=False):
 def main():
     src, props = sys.argv[1], sys.argv[2:]
     tag = os.path.basename(os.path.dirname(src.rstrip("/"))).replace("wt-", "") if src.rstrip("/").endswith("_out") else "x"
+    raw = os.path.join(V, ".cache", "seed-raw", tag)
+    shutil.rmtree(raw, ignore_errors=True)
+    shutil.copytree(src, raw, ignore=shutil.ignore_patterns("demo", "*.o", "demo_*"))   # keep the agent's output before anything can remove the worktree
     for kdir in sorted(glob.glob(os.path.join(src, "[0-9]*"))):
         k = os.path.basename(kdir)
         patch = os.path.join(kdir, "patch.diff")
@@ -64,7 +67,7 @@ def main():
             for p in props:
                 env = dict(os.environ, VERIF_REPO=d)
                 t = time.time()
-                rc = subprocess.run([sys.executable, os.path.join(V, "check.py"), p, "--noevidence"], capture_output=True, text=True, env=env)
+                rc = subprocess.run([sys.executable, os.path.join(V, "check.py"), p, "--noevidence"], capture_output=True, text=True, errors="replace", env=env)
                 det = [l.strip() for l in rc.stdout.splitlines() if l.startswith("  ")]
                 verdicts[p] = {"exit": rc.returncode, "seconds": round(time.time() - t), "detail": det[:2]}
                 meta["ran"].append("python3 check.py %s (quick) against the changed tree: exit %d %s" % (p, rc.returncode, det[:1]))
